@@ -304,7 +304,27 @@ func run(c *harness.Ctx, i int) {
 	hostile := ""
 	var midRun func()
 	if !useCLI && rng.Intn(4) == 0 {
-		switch rng.Intn(3) {
+		switch rng.Intn(4) {
+		case 3:
+			// a store that is not verified on reading (skip-verify) holding an object of the wrong length under one ID:
+			// the length recorded in the index is then the only thing between that object and the output
+			if len(idx.Chunks) == 0 {
+				break
+			}
+			ch := idx.Chunks[rng.Intn(len(idx.Chunks))]
+			data := append([]byte(nil), blob[ch.Start:ch.Start+ch.Size]...)
+			if rng.Intn(2) == 0 && len(data) > 1 {
+				data = data[:1+rng.Intn(len(data)-1)]
+			} else {
+				data = append(data, []byte("trailing garbage")...)
+			}
+			z, _ := desync.Compress(data)
+			sid := ch.ID.String()
+			dsu.WriteFile(filepath.Join(storeDir, sid[:4], sid+".cacnk"), z)
+			sv, err := desync.NewLocalStore(storeDir, desync.StoreOptions{SkipVerify: true})
+			dsu.Must(err)
+			fs.S = sv
+			hostile = "unverified-store-wrong-length"
 		case 0:
 			k := int64(1 + rng.Intn(4))
 			fs.Before = func(op string, n int64, id desync.ChunkID) error {
@@ -331,7 +351,7 @@ func run(c *harness.Ctx, i int) {
 		case 2:
 			hostile = "seed-changes-under-extraction"
 		}
-		if hostile == "seed-changes-under-extraction" || rng.Intn(2) == 0 {
+		if hostile == "seed-changes-under-extraction" || (hostile != "" && rng.Intn(2) == 0) {
 			// after validation, a stretch of several chunks in every seed file is overwritten (not the target, should it
 			// be its own seed: writing into the output from outside proves nothing)
 			var files []string
